@@ -127,7 +127,7 @@ EXTRA2 = {
  'C06': 'Also: finite case analysis of the condition that applies a positional mask to a variable (10 cases); a structure-only copy keeps the coordinate keys. Every masked_* step of mask() is checked against a numpy.ma contract table (keeps / rebuilds the incoming mask); the masked_values step it flagged is fixed in /repo (7bb5efd).',
  'C07': 'Also: every parameter of the converter functions is read (options forwarded); the 0-d branch stores the array, never an extracted scalar; a looked-up fill value is never tested for truth (0 is a fill value); attributes reach the destination through setncattr (R-NCATTRAPI; the global-attribute defect it flagged is fixed in /repo d8f8c27).',
  'C08': 'Also: century pivot and offsets decode 00-69 as 20xx and 70-99 as 19xx per element; boundary keys are split at the first underscore only; writers never write storage of their input (provenance); dtype-preserving astype is not a conversion; cloud/rain record order is a literal list; every value a CAMx writer emits has its byte order fixed by the writer, never that of an input attribute (R-BYTEORDER, 70 sites); the land-use writer emits the category record first (R-LUORDER); the memory-mapped met readers define the step-boundary search for single-step files (R-ONESTEP; defects fixed in /repo 83cdc6c, c58f3b1).',
- 'C09': 'Also: an astype that keeps the input item size gives a symbolic item size, so marker = payload fails as a polynomial identity. Reader direction: a key probe with a no-key branch must read the probed bytes with an operation that is total over byte strings (R-PROBETOTAL; the land-use reader defect it flagged is fixed in /repo, ab9dd89).',
+ 'C09': 'Also: an astype that keeps the input item size gives a symbolic item size, so marker = payload fails as a polynomial identity. Reader direction: a key probe with a no-key branch must read the probed bytes with an operation that is total over byte strings (R-PROBETOTAL; the land-use reader defect it flagged is fixed in /repo, ab9dd89). List pieces built by repetition are checked for a count that is negative at the smallest lengths the statement admits (the lateral-boundary defect it flagged is fixed in /repo, 0e9d1a3).',
  'C10': 'Also: handler guards are membership tests (not truthiness / selector kind / elif of another dimension); applyAlongDimensions and ncf2ioapi store NLAYS + 1 edges (size algebra); every decode of the fixed-width VAR-LIST cuts 16-character fields (R-VARLISTWIDTH; defect fixed in /repo e1e7347).',
  'C11': 'Also: each georeferencing handler runs whenever its dimension is selected (no truthiness test of the selector, no elif chaining of ROW after COL).',
  'C12': 'Also: datetime64 unit no coarser than the resolution found; epoch seconds never cast to 4-byte integers; updatetflag deletes the old TFLAG before it asks getTimes(); in 365/366-day calendars the reference date enters as its positive offset into the model year (R-REFSHIFT).',
